@@ -14,14 +14,18 @@ Full statement (the property's clause):
     parse_build : WFSeq x → ∃ y, Genbank.parse (build x o) = .ok y ∧ y ≈ x          (WFSeq x := wfSeq x = true)
 
 Proved below as `parse_build_partial` under the stronger, decidable hypothesis `covered x`
-(Spec/GbRoundTrip.lean): `wfSeq x` AND the record is one that C01's abstract record type `GbRec`
-expresses (molecule type DNA / mRNA / tRNA / rRNA, exactly one topology, a division, a date with a
-real month, the LOCUS length equal to the number of bases, extra keywords of ≤ 10 capitals,
-qualifier keys over `[a-z0-9_]`, values without quotation marks, … = `GbLayout.wf (toRec x)`) AND
-every REFERENCE line has a range and fits on one line.  What is missing for the full statement is
-on the C01 side (its composition theorem `parseLoop_layout` is stated for `GbRec`, which has no
-empty locus fields, eight fewer molecule types, …) plus the wrapped REFERENCE line; on those
-records the clause rests on the correspondence check (the REAL `Parse(Build(x)) ≈ x` is judged on
+(Spec/GbRoundTrip.lean) = `wfSeq x` AND `GbLayout.wf (toRec x)` (the record, as C01's abstract record
+type `GbRec` expresses it, lies in C01's domain) AND no REFERENCE line is wrapped.  Since C01's
+widening (d64486e … 64dcf63) `GbRec` expresses every locus `Build` can write: any of poly's twelve
+molecule types or none, a topology or none, a division or none, a length string or none, a date
+or none; a reference without range; extra keywords / feature keys / qualifier keys of visible
+characters; quotation marks inside values.  What `covered` still adds to `wfSeq`:
+a date, when present, has a real month (C01 `isDateText`; `wfSeq` accepts any three capitals);
+a qualifier key holds no quotation mark; a cached location text is ONE INSDC-shaped expression
+(`isLocText`) and a structural location has no negative coordinate... (the complete list with reasons:
+`PARTIAL` in gen/c03.py); fewer than 10^8 bases; the REFERENCE line (number, two blanks, range) fits
+on one line; `Reference.Index` is the position (C01's `toRefs` numbers by position).  On the
+remaining records the clause rests on the correspondence check (the REAL `Parse(Build(x)) ≈ x` is judged on
 every case, and the parser MODEL is compared with the real parser on every written text). -/
 
 open PolyVerif.Spec.GbRoundTrip in
@@ -34,6 +38,12 @@ number of features / qualifiers / references / blocks, any sequence length < 10^
 theorem parse_build_partial (x : Sequence) (o : MapOrders) (h : covered x = true) :
     ∃ y, Genbank.parse (build x o) = .ok y ∧ approx x y = true :=
   ⟨_, PolyVerif.Lemmas.GbRoundTrip.parse_build_covered x o h, PolyVerif.Lemmas.GbRoundTrip.approx_covered x h⟩
+
+/-- a sparse record: no length, molecule type, topology, division or date; a reference without range -/
+def sparseRecord : Sequence :=
+  { metadata := { locus := { name := "x1".toList }, references := [{ index := "1".toList, authors := "A".toList }] },
+    features := [{ type := "gene".toList }],
+    sequence := "acgt".toList }
 
 /-- a covered record: wrapped definition, a reference, an extra block, two features -/
 def coveredRecord : Sequence :=
@@ -51,5 +61,14 @@ def coveredRecord : Sequence :=
 open PolyVerif.Spec.GbRoundTrip in
 /-- non-vacuity of `parse_build_partial` -/
 example : covered coveredRecord = true := by decide +kernel
+
+open PolyVerif.Spec.GbRoundTrip in
+/-- … also with a two-word molecule type and quotation marks inside a value, and with every optional
+LOCUS field absent, a reference without range and a feature without location -/
+example :
+    covered { coveredRecord with
+        metadata := { coveredRecord.metadata with locus := { coveredRecord.metadata.locus with moleculeType := "genomic DNA".toList } },
+        features := [{ type := "CDS".toList, attributes := [("product".toList, "beta \"lactamase\" (bla)".toList), ("EC_number".toList, "3.5.2.6".toList)] }] } = true
+    ∧ covered sparseRecord = true := by decide +kernel
 
 end PolyVerif.Props.C03
